@@ -54,6 +54,7 @@ TraceNext ==
   /\ st.l <= Len(Traces[st.ti].events)
   /\ LET e == Ev IN
      CASE e.ev = "begin" -> st' = [st EXCEPT !.l = @ + 1, !.inflight = @ \cup {[p |-> e.p, op |-> e.op, obj |-> e.obj, vin |-> VerOf(st.ver, e.obj)]}]
+       [] e.ev = "mutated" -> st' = [st EXCEPT !.l = @ + 1, !.bad = "the value " \o e.op \o "(" \o e.obj \o ") returned was written to by a later call"]
        [] e.ev = "write" -> st' = [st EXCEPT !.l = @ + 1, !.ver = Bump(@, e.obj)]                     \* not in any declared footprint: only ever logged when observed
        [] e.ev = "end" ->
             LET c == CHOOSE x \in st.inflight : x.p = e.p
